@@ -281,6 +281,24 @@ structure Inst where
   extraU : Nat → Nat → List Rat
   other : Nat → Nat → List Rat
 
+/-- what the data of a valid problem satisfy: every member supplies a value for every parameter,
+    every constant input series is non-empty with increasing stamps and a known interpolation
+    mode, the differentiated states are among the collocated variables -/
+structure Inst.WF (I : Inst) : Prop where
+  par_len : ∀ m, m < I.E → (I.pvals m).length = I.npar
+  cin_sorted : ∀ m j, m < I.E → j < I.sys.nc → Sorted (I.cin m j)
+  cin_ne : ∀ m j, m < I.E → j < I.sys.nc → I.cin m j ≠ []
+  cmode_ok : ∀ j, j < I.sys.nc → I.cmode j ≤ 2
+  nd_le : I.sys.nd ≤ I.sys.k
+
+/-- executable form of `Inst.WF` (the driver refuses instances outside it) -/
+def Inst.wfb (I : Inst) : Bool :=
+  (List.range I.E).all (fun m =>
+      (I.pvals m).length == I.npar
+      && (List.range I.sys.nc).all (fun j => decide (Sorted (I.cin m j)) && !(I.cin m j).isEmpty))
+    && (List.range I.sys.nc).all (fun j => decide (I.cmode j ≤ 2))
+    && decide (I.sys.nd ≤ I.sys.k)
+
 /-- the per-member data the code derives -/
 def Inst.mem (I : Inst) (m : Nat) : Mem where
   idx := I.idx m
